@@ -68,16 +68,16 @@ def step (st : St) : List String → St × String
     | _, _ => (st, "bad-op")
   | ["put", k, p] =>
     match k, ofHex p with
-    | "d", some p => ({ st with fs := st.fs.set (locOf p) .dir }, "ok")
+    | "d", some p => ({ st with fs := st.fs.envSet (locOf p) .dir }, "ok")
     | _, _ => (st, "bad-op")
   | ["put", k, p, d] =>
     match k, ofHex p, ofHex d with
-    | "f", some p, some d => ({ st with fs := st.fs.set (locOf p) (.file d) }, "ok")
-    | "l", some p, some d => ({ st with fs := st.fs.set (locOf p) (.link d) }, "ok")
+    | "f", some p, some d => ({ st with fs := st.fs.envSet (locOf p) (.file d) }, "ok")
+    | "l", some p, some d => ({ st with fs := st.fs.envSet (locOf p) (.link d) }, "ok")
     | _, _, _ => (st, "bad-op")
   | ["rm", p] =>
     match ofHex p with
-    | some p => ({ st with fs := st.fs.remove (locOf p) }, "ok")
+    | some p => ({ st with fs := st.fs.envRemove (locOf p) }, "ok")
     | none => (st, "bad-op")
   | ["wc", p] =>
     match ofHex p with
@@ -166,10 +166,10 @@ def step (st : St) : List String → St × String
     match ofHex n, pt?, ofHex p, data?, st.a with
     | some n, some pt, some p, some d, some a =>
       let fs'? : Option Fs := match mk, rest with
-        | "l", [_] => some (st.fs.set (locOf p) (.link d))
-        | "f", [_] => some (st.fs.set (locOf p) (.file d))
-        | "d", [] => some (st.fs.set (locOf p) .dir)
-        | "r", [] => some (st.fs.remove (locOf p))
+        | "l", [_] => some (st.fs.envSet (locOf p) (.link d))
+        | "f", [_] => some (st.fs.envSet (locOf p) (.file d))
+        | "d", [] => some (st.fs.envSet (locOf p) .dir)
+        | "r", [] => some (st.fs.envRemove (locOf p))
         | _, _ => none
       match fs'?, kind with
       | some fs', "static" =>
@@ -210,9 +210,9 @@ def step (st : St) : List String → St × String
       let bOp? : Option Race.RaceOp := match bop with
         | "static" => some (.static nB) | "template" => some (.template nB) | "reload" => some .reload | "none" => some .none | _ => none
       let fs1? : Option Fs := match mk with
-        | "l" => some (st.fs.set (locOf mp) (.link md))
-        | "f" => some (st.fs.set (locOf mp) (.file md))
-        | "r" => some (st.fs.remove (locOf mp))
+        | "l" => some (st.fs.envSet (locOf mp) (.link md))
+        | "f" => some (st.fs.envSet (locOf mp) (.file md))
+        | "r" => some (st.fs.envRemove (locOf mp))
         | "n" => some st.fs
         | _ => none
       match bOp?, fs1?, (kindA == "static" || kindA == "template") with
